@@ -500,7 +500,7 @@ fn exec_c20(plan: &Value, ctx: &mut Ctx) {
         }
         let server_cert = crate::wire::identity(2048, "b").cert.clone();
         // tokens made earlier: (token, nonce it was encrypted for, user index, password correct)
-        let mut earlier: Vec<(UserNameIdentityToken, Vec<u8>, usize, bool)> = Vec::new();
+        let mut earlier: Vec<(UserNameIdentityToken, Vec<u8>, usize, bool, SignatureData)> = Vec::new();
         let steps = plan["steps"].as_array().cloned().unwrap_or_default();
         for (i, s) in steps.iter().enumerate() {
             ctx.step(i);
@@ -510,6 +510,7 @@ fn exec_c20(plan: &Value, ctx: &mut Ctx) {
             let kind = s["kind"].as_str().unwrap_or("anon");
             let nonce_now: Vec<u8> = c.server_nonce.value.clone().unwrap_or_default();
             // (token object, model verdict: may this be accepted?, description)
+            let mut replay_sig: Option<SignatureData> = None;
             let (token, acceptable, desc): (ExtensionObject, bool, String) = match kind {
                 "anon" => {
                     let pid = if s["right_policy_id"].as_bool().unwrap_or(true) { "anonymous" } else { "anon2" };
@@ -532,7 +533,11 @@ fn exec_c20(plan: &Value, ctx: &mut Ctx) {
                             continue;
                         }
                         ctx.fault("replayed_password_token");
-                        let (tok, made_for, eui, epw) = earlier[(s["which"].as_u64().unwrap_or(0) as usize) % earlier.len()].clone();
+                        let (tok, made_for, eui, epw, old_sig) = earlier[(s["which"].as_u64().unwrap_or(0) as usize) % earlier.len()].clone();
+                        // a whole replayed request carries the client signature made for the old nonce
+                        if s["whole_request"].as_bool().unwrap_or(false) {
+                            replay_sig = Some(old_sig);
+                        }
                         let same_nonce = made_for == nonce_now;
                         if !same_nonce {
                             ctx.probe("replay_after_nonce_rotation");
@@ -606,7 +611,7 @@ fn exec_c20(plan: &Value, ctx: &mut Ctx) {
                             encryption_algorithm: alg,
                         };
                         if mangle == "none" {
-                            earlier.push((tok.clone(), nonce_now.clone(), ui, right_pw && right_pid));
+                            earlier.push((tok.clone(), nonce_now.clone(), ui, right_pw && right_pid, c.client_signature()));
                         }
                         (
                             ExtensionObject::from_encodable(ObjectId::UserNameIdentityToken_Encoding_DefaultBinary, &tok),
@@ -618,7 +623,10 @@ fn exec_c20(plan: &Value, ctx: &mut Ctx) {
                 // Part 4: a null / empty user identity token means anonymous
                 _ => (ExtensionObject::null(), anonymous, "null-token".to_string()),
             };
-            let r = c.activate_session(token).await;
+            let r = match replay_sig.take() {
+                Some(sig) => c.activate_session_signed(token, sig).await,
+                None => c.activate_session(token).await,
+            };
             let good = matches!(r, Recv::Msg(_, SupportedMessage::ActivateSessionResponse(_)));
             if good {
                 ctx.probe("activation_succeeded");
@@ -653,7 +661,7 @@ fn gen_c20(rng: &mut Rng, tier: Tier) -> Value {
             0..=1 => steps.push(json!({"kind": "anon", "right_policy_id": rng.chance(0.8)})),
             2..=6 => steps.push(json!({"kind": "user", "user": rng.below(4), "right_password": rng.chance(0.7), "right_policy_id": rng.chance(0.9), "plain": rng.chance(0.1),
                                       "mangle": *rng.pick(&["none", "none", "none", "none", "truncate", "garbage", "short", "wrong_alg", "wrong_nonce", "short_plaintext"])})),
-            7..=8 => steps.push(json!({"kind": "replay", "which": rng.below(4)})),
+            7..=8 => steps.push(json!({"kind": "replay", "which": rng.below(4), "whole_request": rng.chance(0.5)})),
             _ => steps.push(json!({"kind": "null"})),
         }
     }
